@@ -7,7 +7,8 @@ import (
 
 // Case is one communication clause of a rewritten select statement.
 type Case struct {
-	p Prober
+	p   Prober
+	obj uintptr
 }
 
 type recvProbe[T any] struct{ ch <-chan T }
@@ -75,17 +76,17 @@ func chanPtr(ch interface{}) uintptr { return reflect.ValueOf(ch).Pointer() }
 // RecvCase / SendCase build select clauses.
 //
 //go:norace
-func RecvCase[T any](ch <-chan T) Case { return Case{recvProbe[T]{ch}} }
+func RecvCase[T any](ch <-chan T) Case { return Case{recvProbe[T]{ch}, chanPtrOrZero(ch)} }
 
 //go:norace
-func SendCase[T any](ch chan<- T) Case { return Case{sendProbe[T]{ch}} }
+func SendCase[T any](ch chan<- T) Case { return Case{sendProbe[T]{ch}, chanPtrOrZero(ch)} }
 
 // Send is the rewritten `ch <- v`.
 //
 //go:norace
 func Send[T any](ch chan<- T, v T) {
 	if Active() {
-		Block("chan.send", sendProbe[T]{ch})
+		BlockObj("chan.send", sendProbe[T]{ch}, chanPtrOrZero(ch), true)
 		if Exiting() {
 			runtime.Goexit()
 		}
@@ -98,7 +99,7 @@ func Send[T any](ch chan<- T, v T) {
 //go:norace
 func Recv[T any](ch <-chan T) T {
 	if Active() {
-		Block("chan.recv", recvProbe[T]{ch})
+		BlockObj("chan.recv", recvProbe[T]{ch}, chanPtrOrZero(ch), true)
 		if Exiting() {
 			runtime.Goexit()
 		}
@@ -111,7 +112,7 @@ func Recv[T any](ch <-chan T) T {
 //go:norace
 func Recv2[T any](ch <-chan T) (T, bool) {
 	if Active() {
-		Block("chan.recv", recvProbe[T]{ch})
+		BlockObj("chan.recv", recvProbe[T]{ch}, chanPtrOrZero(ch), true)
 		if Exiting() {
 			runtime.Goexit()
 		}
@@ -125,7 +126,7 @@ func Recv2[T any](ch <-chan T) (T, bool) {
 //go:norace
 func Close[T any](ch chan<- T) {
 	if Active() {
-		Yield("chan.close")
+		YieldObj("chan.close", chanPtrOrZero(ch), true)
 		markClosed(chanPtr(ch))
 	}
 	close(ch)
@@ -154,10 +155,18 @@ func Select(hasDefault bool, cases ...Case) int {
 	if s == nil {
 		panic("vsched.Select outside an execution")
 	}
+	var objs [16]uintptr
+	no := 0
+	for _, c := range cases {
+		if c.obj != 0 && no < len(objs) {
+			objs[no] = c.obj
+			no++
+		}
+	}
 	if hasDefault {
-		Yield("select.poll")
+		BlockObjs("select.poll", nil, objs[:no], false)
 	} else {
-		Block("select", selectProbe{cases})
+		BlockObjs("select", selectProbe{cases}, objs[:no], true)
 	}
 	if Exiting() {
 		runtime.Goexit()
@@ -187,3 +196,15 @@ func Select(hasDefault bool, cases ...Case) int {
 //
 //go:norace
 func ElemOf[T any](ch chan<- T, v T) T { return v }
+
+// chanPtrOrZero is chanPtr tolerating nil channels (a nil channel is no object: never ready).
+// A distinct non-zero id is returned for nil so that it is not mistaken for "unknown effect".
+//
+//go:norace
+func chanPtrOrZero(ch interface{}) uintptr {
+	p := reflect.ValueOf(ch).Pointer()
+	if p == 0 {
+		return 1
+	}
+	return p
+}
